@@ -207,6 +207,145 @@ theorem ffill_value_source (l : List Row) (x : Row) (v : Rat) (hx : x ∈ ffill 
   obtain ⟨a, r, b, hl, rfl⟩ := ffill_last_valid l x hx
   exact ⟨a, r, b, hl, rfl, lastSome_eq_some hv⟩
 
+/-- **ffill_active** — the forward fill of a tempo frame is the active-tempo step function. For every list of
+tempo points with distinct times and *every* arrangement `l` of the frame's rows that is sorted by offset and
+never puts a valueless row before a valued row of the same offset: each row of `l.ffill()` carries the bpm of
+the tempo point in force at its offset, or nothing when it lies strictly before every tempo point. -/
+theorem ffill_active (bpms : List Tp) (l : List Row)
+    (hs : l.Pairwise (fun a b => a.1 ≤ b.1)) (hf : FrameOf bpms l) (hv : ValuedFirst l)
+    (x : Row) (hx : x ∈ ffill l) :
+    (∃ p, IsActiveTp bpms x.1 p ∧ x.2 = some p.bpm) ∨ (x.2 = none ∧ ∀ p ∈ bpms, x.1 < p.time) := by
+  obtain ⟨a, r, b, hl, rfl⟩ := ffill_last_valid l x hx
+  obtain ⟨t, rv⟩ := r
+  rw [List.map_append, List.map_cons, List.map_nil, lastSome_snoc]
+  rw [hl] at hs
+  obtain ⟨hsa, hsrb, hab⟩ := List.pairwise_append.mp hs
+  have hrb := (List.pairwise_cons.mp hsrb).1
+  cases rv with
+  | some v' =>
+    left
+    refine ⟨⟨t, v'⟩, ⟨hf.1 t v' (by rw [hl]; simp), le_refl _, fun q _ hq => hq⟩, rfl⟩
+  | none =>
+    simp only [pick]
+    -- a tempo row can neither be the marker row itself nor follow it at the same offset
+    have hnotb : ∀ q ∈ bpms, (q.time, some q.bpm) ∈ b → t < q.time := by
+      intro q _ hqb
+      have h1 : t ≤ q.time := hrb _ hqb
+      rcases lt_or_eq_of_le h1 with h | h
+      · exact h
+      · have := hv a b t hl _ hqb h.symm
+        simp at this
+    cases hls : lastSome (a.map (·.2)) with
+    | none =>
+      right
+      refine ⟨rfl, ?_⟩
+      intro q hq
+      have hrow : (q.time, some q.bpm) ∈ l := hf.2 q hq
+      rw [hl] at hrow
+      rcases List.mem_append.mp hrow with h | h
+      · have := lastSome_eq_none hls (some q.bpm) (List.mem_map.mpr ⟨_, h, rfl⟩)
+        simp at this
+      · rcases List.mem_cons.mp h with h | h
+        · simp at h
+        · exact hnotb q hq h
+    | some v =>
+      left
+      obtain ⟨v1, v2, hsplit, hnone⟩ := lastSome_eq_some hls
+      obtain ⟨P1, P2', hP, hP1, hP2'⟩ := List.map_eq_append_iff.mp hsplit
+      obtain ⟨w, P2, hP2, hw, hP2m⟩ := List.map_eq_cons_iff.mp hP2'
+      subst hP2
+      obtain ⟨wt, wv⟩ := w
+      simp only at hw
+      subst hw
+      have hwa : (wt, some v) ∈ a := by rw [hP]; simp
+      have hP2none : ∀ y ∈ P2, y.2 = none := by
+        intro y hy
+        exact hnone _ (by rw [← hP2m]; exact List.mem_map.mpr ⟨y, hy, rfl⟩)
+      rw [hP] at hsa
+      obtain ⟨_, _, hP1w⟩ := List.pairwise_append.mp hsa
+      refine ⟨⟨wt, v⟩, ⟨hf.1 wt v (by rw [hl]; exact List.mem_append_left _ hwa), ?_, ?_⟩, rfl⟩
+      · exact hab _ hwa (t, none) (by simp)
+      · intro q hq hqt
+        have hrow : (q.time, some q.bpm) ∈ l := hf.2 q hq
+        rw [hl] at hrow
+        rcases List.mem_append.mp hrow with h | h
+        · rw [hP] at h
+          rcases List.mem_append.mp h with h | h
+          · exact hP1w _ h (wt, some v) (by simp)
+          · rcases List.mem_cons.mp h with h | h
+            · simp only [Prod.mk.injEq] at h
+              exact le_of_eq h.1
+            · have := hP2none _ h
+              simp at this
+        · rcases List.mem_cons.mp h with h | h
+          · simp at h
+          · exact absurd hqt (not_le.mpr (hnotb q hq h))
+
+/-- the stable arrangement the model sorts into satisfies the three hypotheses of `ffill_active` -/
+theorem sorted_bpmRows_ok (bpms : List Tp) (omin omax : Rat) :
+    (sortRow (bpmRows bpms omin omax)).Pairwise (fun a b => a.1 ≤ b.1) ∧
+    FrameOf bpms (sortRow (bpmRows bpms omin omax)) ∧ ValuedFirst (sortRow (bpmRows bpms omin omax)) := by
+  refine ⟨sortRow_sorted _, ⟨?_, ?_⟩, ?_⟩
+  · intro t b h
+    have h' := (isort_perm _ _).mem_iff.mp h
+    simp only [bpmRows, headTailBpm, List.zip_cons_cons, List.zip_nil_right, List.mem_append, List.mem_map,
+      List.mem_cons, Prod.mk.injEq, List.not_mem_nil, or_false] at h'
+    rcases h' with ⟨p, hp, rfl, hb⟩ | h' | h'
+    · simp only [Option.some.injEq] at hb
+      subst hb
+      exact hp
+    · simp at h'
+    · simp at h'
+  · intro p hp
+    apply (isort_perm _ _).mem_iff.mpr
+    simp only [bpmRows, List.mem_append, List.mem_map]
+    exact Or.inl ⟨p, hp, rfl⟩
+  · apply VF_valuedFirst
+    unfold bpmRows
+    apply VF_sortRow
+    · intro r hr
+      obtain ⟨p, _, rfl⟩ := List.mem_map.mp hr
+      simp
+    · intro r hr
+      simp only [headTailBpm, List.zip_cons_cons, List.zip_nil_right, List.mem_cons, List.not_mem_nil, or_false] at hr
+      rcases hr with rfl | rfl <;> rfl
+
+/-- **bpm_frame_spec** — the tempo step function of `scroll_speed` (sort, ffill, bfill, drop_duplicates), for
+every tempo list in any row order and any first / last stacked offset: each row of the frame carries the bpm
+of a tempo point in force at its offset, or lies strictly before every tempo point (where the statement is
+silent). -/
+theorem bpm_frame_spec (bpms : List Tp) (omin omax : Rat) (x : Row) (hx : x ∈ bpmFrame bpms omin omax) :
+    (∃ p, IsActiveTp bpms x.1 p ∧ x.2 = some p.bpm) ∨ (∀ p ∈ bpms, x.1 < p.time) := by
+  obtain ⟨hs, hf, hv⟩ := sorted_bpmRows_ok bpms omin omax
+  have hx' := mem_dropDup (by simpa [bpmFrame, bpmFrameOf] using hx)
+  rcases mem_bfill hx' with h | h
+  · rcases ffill_active bpms _ hs hf hv x h with h1 | h1
+    · exact Or.inl h1
+    · exact Or.inr h1.2
+  · rcases ffill_active bpms _ hs hf hv (x.1, none) h with ⟨p, _, hp⟩ | h1
+    · simp at hp
+    · exact Or.inr h1.2
+
+/-- **scroll_speed_nosv_spec_partial** — games without SVs: the reference is the override or a dominant bpm,
+and every result row at or after some tempo point is `active bpm / reference` (· 1). Missing for the full
+`scroll_speed_spec`: that the result's offsets are exactly the breakpoints, and the SV side. -/
+theorem scroll_speed_nosv_spec_partial (bpms : List Tp) (svs : List Sv) (omin omax : Rat) (ov : Option Rat)
+    (hne : bpms ≠ []) (hd : (bpms.map (·.time)).Nodup) (hL : ∀ p ∈ bpms, p.time ≤ omax)
+    (hov : ∀ b, ov = some b → b ≠ 0) :
+    ∃ ref out, scrollSpeed false bpms svs omin omax ov = some out ∧ IsRef bpms omax ov ref ∧
+      ∀ y ∈ out, (∃ p, IsActiveTp bpms y.1 p ∧ y.2 = some (p.bpm / ref * 1)) ∨ (∀ p ∈ bpms, y.1 < p.time) := by
+  obtain ⟨ref, href, hout⟩ := scroll_speed_ref_partial false bpms svs omin omax ov hne hd hL hov
+  refine ⟨ref, _, hout, href, ?_⟩
+  intro y hy
+  rw [speedFrame_noSv, List.map_map] at hy
+  obtain ⟨x, hx, rfl⟩ := List.mem_map.mp hy
+  rcases bpm_frame_spec bpms omin omax x hx with ⟨p, hp, hv⟩ | h
+  · left
+    refine ⟨p, hp, ?_⟩
+    simp [speedOf, optMul, hv]
+  · right
+    simpa [speedOf] using h
+
 /-- D42 on the model: the tempo frame of `[(0, 100), (1000, 200)]` with the last stacked offset at 1000. The
 arrangement `arr` is a permutation of the frame's rows and is sorted by offset — a legitimate result of an
 unstable sort — yet filling it produces the row (1000, 100), which the specification rejects (at 1000 the
